@@ -54,6 +54,26 @@ def run(ck):
         for sc in schedules(nreads, min(L, max(1, len(s)))):
             cases.append("chars\t%s\t%s\t" % (s.hex(), ",".join(map(str, sc))))
             meta.append(s)
+    # the first and last character of every encoded length and of every lead byte, the byte-order mark, and their
+    # invalid neighbours, at every alignment to the reader's window (0..4 one-byte characters in front), alone at the
+    # very start of the input, and in pairs -- under every schedule prefix of length 4 (3 for pairs)
+    edge_cp = [0x7F, 0x80, 0xBF, 0xC0, 0x7FF, 0x800, 0xFFF, 0x1000, 0xCFFF, 0xD000, 0xD7FF, 0xE000, 0xFEFF, 0xFFFD, 0xFFFE, 0xFFFF,
+               0x10000, 0x3FFFF, 0x40000, 0x7FFFF, 0x80000, 0xBFFFF, 0xC0000, 0xFFFFF, 0x100000, 0x10FFFF]
+    edge = [chr(c).encode("utf-8") for c in edge_cp] + [b"\xed\xa0\x80", b"\xed\xbf\xbf", b"\xf4\x90\x80\x80", b"\xf0\x8f\xbf\xbf",
+                                                          b"\xe0\x9f\xbf", b"\xc2", b"\xf5\x80\x80\x80", b"\xf8\x88\x80\x80\x80", b"\xf4\x8f\xbf", b"\xf4\x8f"]
+    for ch in edge:
+        for pre in range(0, 5):
+            for suf in (b"", b"z"):
+                st = b"a" * pre + ch + suf
+                for sc in schedules(len(st) + 3, 4):
+                    cases.append("chars\t%s\t%s\t" % (st.hex(), ",".join(map(str, sc))))
+                    meta.append(st)
+    for c1 in edge:
+        for c2 in edge:
+            st = c1 + c2
+            for sc in schedules(len(st) + 3, 3 if thorough else 2):
+                cases.append("chars\t%s\t%s\t" % (st.hex(), ",".join(map(str, sc))))
+                meta.append(st)
     # long random
     for _ in range(3000 if thorough else 400):
         n = rng.randrange(5, 400)
